@@ -239,8 +239,13 @@ fn hull3(a: &Active, t: f64) -> Option<(f64, f64, bool)> {
 	}
 	let exact = a.start_known && a.late == 0.0 && a.early == 0.0;
 	let slack = if exact { 0.0 } else { TIME_SLACK };
-	let lo = t - (a.t_ideal + a.late) - slack;
-	let hi = t - (a.t_ideal - a.early) + slack;
+	// (the implementation adds its elapsed time up update by update, the reference subtracts two
+	// running sums: the two differ by a few ulps, and an easing like OutPowf(0.1), which is vertical
+	// at its end, turns one ulp of time into 3 % of the span - so the window is never narrower than
+	// the rounding of the sums)
+	let rounding = 64.0 * f64::EPSILON * t.abs().max(a.dur).max(a.t_ideal.abs());
+	let lo = t - (a.t_ideal + a.late) - slack - rounding;
+	let hi = t - (a.t_ideal - a.early) + slack + rounding;
 	if hi < 0.0 {
 		return None;
 	}
